@@ -70,21 +70,33 @@ Print Assumptions C09_unforgeable.
 
 (* Non-interference: cookies that do not decode under the configured key for
    their own name (junk, other key, renamed) are never session content —
-   GetSession loads the same session with or without them ... *)
+   GetSession loads the same session content with or without them ... *)
 Theorem C09_load_ignores_undecodable : forall (k : N) (now : time) (j : jar),
-  NoDup (names j) -> load k now j = load k now (filter (decodable k) j).
-Proof. exact (fun k now j H => eq_sym (load_filter k now j H)). Qed.
+  NoDup (names j) ->
+  let sd := load k now j in
+  let sd' := load k now (filter (decodable k) j) in
+  s_main sd' = s_main sd /\ s_acc sd' = s_acc sd /\ s_ref sd' = s_ref sd
+  /\ s_achunks sd' = s_achunks sd /\ s_rchunks sd' = s_rchunks sd
+  /\ s_marked_a sd' = s_marked_a sd /\ s_marked_r sd' = s_marked_r sd /\ s_live sd' = s_live sd.
+Proof. exact load_filter_content. Qed.
 Print Assumptions C09_load_ignores_undecodable.
 
 (* ... hence the whole ladder gives the same new state and the same response
-   for a request whose undecodable cookies are removed. *)
-Theorem C09_undecodable_ignored : forall (E : env) (cfg : config) (st : inst) (now : time) (rq : request)
+   for a request whose undecodable cookies are removed, provided the walk that
+   schedules chunk-cookie DELETIONS counts the same cookies in both jars (since
+   fix 098055b that walk deliberately counts undecodable chunk cookies too, so
+   that they are deleted: C17; the premise always holds when the undecodable
+   cookies are main / token cookies or lie behind a gap).  PARTIAL in this
+   respect: without the premise the two responses differ at most in those
+   deletion Set-Cookie headers — that last statement is not proved here; the
+   content statement above is unconditional. *)
+Theorem C09_undecodable_ignored_partial : forall (E : env) (cfg : config) (st : inst) (now : time) (rq : request)
                                          (rnd : istr * istr * istr) (ans : option answer),
-  NoDup (names (q_jar rq)) ->
+  NoDup (names (q_jar rq)) -> same_chunk_walk (c_key cfg) (q_jar rq) ->
   serve E cfg st now rq rnd ans
   = serve E cfg st now (with_jar rq (filter (decodable (c_key cfg)) (q_jar rq))) rnd ans.
-Proof. exact (fun E cfg st now rq rnd ans H => eq_sym (serve_ignores_undecodable E cfg st now rq rnd ans H)). Qed.
-Print Assumptions C09_undecodable_ignored.
+Proof. exact (fun E cfg st now rq rnd ans H W => eq_sym (serve_ignores_undecodable E cfg st now rq rnd ans H W)). Qed.
+Print Assumptions C09_undecodable_ignored_partial.
 
 (* no response of the model carries flag 4 (a planted secret readable in a
    cookie value without the key): what the world correspondence compares with
